@@ -172,9 +172,25 @@ def deep_cipolla_residues(p, count, keep, start=2):
     return best
 
 
+def smooth_residue_prime(B, kstart=1):
+    """a prime p = 1 + 8*k*prod(odd primes <= B): p = 1 mod 8 and p = 1 mod q for every odd prime q <= B, so
+    -1, 2 and every prime <= B - hence every B-smooth integer - is a square mod p.  For a = c^2 the
+    discriminants b^2 - 4a = (b-2c)(b+2c) are then squares for all b < B - 2c: the parameter search of the
+    p = 1 mod 8 branch has to go beyond B."""
+    m = 8
+    for qq in RN.sieve(B + 1):
+        if qq > 2:
+            m *= qq
+    k = kstart
+    while not probable_prime(1 + k * m):
+        k += 1
+    return 1 + k * m
+
+
 def units(tier, seed):
     q = tier == "quick"
     out = []
+    out.append(("sqrt-smooth", {"bounds": [13, 31, 61, 127] if q else [13, 31, 61, 127, 251, 509]}))
     deep_primes = [prime_in_class(1 << 20, 1, 8), prime_in_class(1 << 24, 1, 8), prime_in_class(1 << 27, 1, 16),
                    prime_in_class(1 << 30, 1, 8), prime_in_class(3 << 29, 1, 32), prime_in_class(1 << 31, 1, 8),
                    prime_in_class(5 << 28, 1, 8), prime_in_class(7 << 27, 1, 64)]
@@ -223,6 +239,15 @@ def run_unit(ctx, name, **kw):
                 check_jacobi(ctx, a, n, f)
         ctx.exhausted("jacobi: all odd n in [3,%d) x all a in [0,n)" % kw["hi"])
         ctx.sample({"fn": "jacobi", "n": kw["hi"] - 1 | 1, "a": "all"})
+    elif name == "sqrt-smooth":
+        for B in kw["bounds"]:
+            for ks in (1, 1000):
+                p = smooth_residue_prime(B, ks)
+                for cc in range(1, 12):
+                    check_sqrt(ctx, cc * cc % p, p)
+                    check_sqrt(ctx, (p - cc * cc) % p, p)       # -c^2 is a residue too (p = 1 mod 4)
+                ctx.event("sqrt-smooth:B=%d" % B)
+            ctx.sample({"fn": "sqrt", "p": p, "a": 4, "note": "every prime <= %d is a residue mod p" % B})
     elif name == "sqrt-deep":
         p = kw["p"]
         best = deep_cipolla_residues(p, kw["count"], 40, kw["start"])
